@@ -283,9 +283,19 @@ Definition empty_request : authnreq :=
 
 (* ------------------------------------------------------------------------- *)
 (* encryption decision: getSPEncryptionCert                                     *)
-(* what  regexp \s+ removal ; base64 decode ; x509.ParseCertificate ; RSA public key?
-   make of a certificate string (external; supplied as a function) *)
+(* what  base64 decode ; x509.ParseCertificate ; RSA public key?  make of a
+   certificate string from which ALL white space has been removed (external;
+   supplied as a function [cp]); the white-space removal itself is modelled *)
 Inductive certres := CertBad | CertNotRsa | CertRsaKey (id : Z).
+
+(* regexp.MustCompile(`\s+`).ReplaceAllString(certStr, ""): RE2's \s is [\t\n\f\r ] *)
+Definition is_ws (c : ascii) : bool :=
+  let n := code c in (n =? 9) || (n =? 10) || (n =? 12) || (n =? 13) || (n =? 32).
+Fixpoint strip_ws (s : string) : string :=
+  match s with
+  | EmptyString => EmptyString
+  | String c r => if is_ws c then strip_ws r else String c (strip_ws r)
+  end.
 Inductive encdec := Plain | EncryptTo (id : Z) | EncErr | EncPanic.
 
 Definition first_cert (k : keydesc) : option string :=
@@ -328,7 +338,7 @@ Definition enc_decision (cp : string -> certres) (l : list keydesc) : encdec :=
   | Err _ => EncErr
   | Ok None => Plain
   | Ok (Some c) =>
-      match cp c with
+      match cp (strip_ws c) with
       | CertRsaKey id => EncryptTo id
       | _ => EncErr                      (* bad base64 / bad DER: getSPEncryptionCert fails; non-RSA key: Encrypt fails *)
       end
@@ -758,7 +768,7 @@ Definition first_unspec (l : list keydesc) : option keydesc := find is_usable_un
 Definition of_cert (r : certres) : encdec := match r with CertRsaKey id => EncryptTo id | _ => EncErr end.
 Definition fallback_decision (cp : string -> certres) (l : list keydesc) : encdec :=
   match first_unspec l with
-  | Some k => of_cert (cp (opt_str (first_cert k)))
+  | Some k => of_cert (cp (strip_ws (opt_str (first_cert k))))
   | None => Plain
   end.
 (* what getSPEncryptionCert + Encrypt decide, read off the metadata:
@@ -770,7 +780,7 @@ Definition enc_decision_decl (cp : string -> certres) (l : list keydesc) : encde
   | Some k =>
       match first_cert k with
       | None => EncErr
-      | Some c => if nonempty c then of_cert (cp c) else EncErr
+      | Some c => if nonempty c then of_cert (cp (strip_ws c)) else EncErr
       end
   | None => fallback_decision cp l
   end.
@@ -797,7 +807,13 @@ Definition c08_kds (c : c06case) : option (list keydesc) :=
 Definition c08_spec (c : c06case) : bool :=
   match c6_obs c with
   | O6Panic => false
-  | O6Err => true
+  | O6Err =>
+      (* nothing emitted: fine unless the model says a response encrypted to a usable
+         advertised key is due (e.g. a certificate whose text is wrapped or indented) *)
+      match c06_model c, c08_kds c with
+      | Ok _, Some l => match enc_decision_decl (cp_of_list (c6_certs c)) l with EncryptTo _ => false | _ => true end
+      | _, _ => true
+      end
   | O6Form _ resp _ =>
       match c08_kds c with
       | None => false
@@ -975,3 +991,97 @@ Definition c07r_spec (c : c07rcase) : bool :=
   | None => false
   end.
 Definition check_c07r := check_cases (fun _ : c07rcase => true) c07r_spec.
+
+(* ========================================================================= *)
+(* C08: the request OBJECT across the step API.  MakeAssertionEl, MakeResponse
+   and PostBinding/WriteResponse keep their results in req.AssertionEl and
+   req.ResponseEl and call each other when a field is still nil; a caller may
+   ignore an error and go on.  An error on the way must leave both fields nil. *)
+Record reqstate := { st_ael : option assertion_el; st_resp : option response }.
+Definition st_empty : reqstate := {| st_ael := None; st_resp := None |}.
+Inductive step := SMakeAssertionEl | SMakeResponse | SPostBinding.
+Record stepctx := {
+  sx_cfg : idpcfg; sx_cp : string -> certres; sx_rt : routing; sx_rq : authnreq; sx_now : Z;
+  sx_a : assertion;        (* req.Assertion, made by MakeAssertion *)
+  sx_rand : string;        (* what is left of saml.RandReader *)
+  sx_rnd : rands
+}.
+
+(* MakeAssertionEl: assigns req.AssertionEl only on its two success exits *)
+Definition do_make_ael (x : stepctx) (st : reqstate) : reqstate * outcome unit :=
+  match make_assertion_el (sx_cfg x) (sx_cp x) (sx_rt x) (sx_a x) (sx_rnd x) with
+  | Ok ael => ({| st_ael := Some ael; st_resp := st_resp st |}, Ok tt)
+  | Err c => (st, Err c)
+  | Panic => (st, Panic)
+  end.
+(* MakeResponse: if req.AssertionEl == nil { MakeAssertionEl } ; build and sign the response *)
+Definition do_make_response (x : stepctx) (st : reqstate) : reqstate * outcome unit :=
+  let '(st1, r1) := match st_ael st with None => do_make_ael x st | Some _ => (st, Ok tt) end in
+  match r1 with
+  | Ok _ =>
+      match st_ael st1 with
+      | Some ael =>
+          match make_response (sx_cfg x) (sx_rt x) (sx_rq x) (sx_now x) ael (sx_rand x) with
+          | Ok resp => ({| st_ael := st_ael st1; st_resp := Some resp |}, Ok tt)
+          | Err c => (st1, Err c)
+          | Panic => (st1, Panic)
+          end
+      | None => (st1, Panic)          (* responseEl.AddChild(nil): not reachable *)
+      end
+  | _ => (st1, r1)
+  end.
+(* PostBinding / WriteResponse: if req.ResponseEl == nil { MakeResponse } ; binding check *)
+Definition do_post_binding (x : stepctx) (st : reqstate) : reqstate * outcome unit :=
+  let '(st1, r1) := match st_resp st with None => do_make_response x st | Some _ => (st, Ok tt) end in
+  match r1 with
+  | Ok _ => (st1, if negb (seqb (ep_binding (rt_ep (sx_rt x))) post_binding) then Err 22 else Ok tt)
+  | _ => (st1, r1)
+  end.
+Definition do_step (x : stepctx) (s : step) (st : reqstate) : reqstate * outcome unit :=
+  match s with
+  | SMakeAssertionEl => do_make_ael x st
+  | SMakeResponse => do_make_response x st
+  | SPostBinding => do_post_binding x st
+  end.
+Fixpoint run_steps (x : stepctx) (l : list step) (st : reqstate) : reqstate * list Z :=
+  match l with
+  | [] => (st, [])
+  | s :: r => let '(st1, o) := do_step x s st in
+              let '(st2, os) := run_steps x r st1 in (st2, ocls o :: os)
+  end.
+
+Definition step_of (z : Z) : step :=
+  if z =? 0 then SMakeAssertionEl else if z =? 1 then SMakeResponse else SPostBinding.
+Definition is_some {A} (o : option A) : bool := match o with Some _ => true | None => false end.
+
+(* step case: the inputs of a response case, the calls a stubborn caller makes
+   (0 MakeAssertionEl, 1 MakeResponse, 2 WriteResponse), their outcome classes,
+   and whether req.AssertionEl / req.ResponseEl are set afterwards *)
+Record c08scase := { s8_base : c06case; s8_steps : list Z; s8_results : list Z; s8_ael_set : bool; s8_resp_set : bool }.
+Definition c08s_ctx (c : c06case) (r : Z * Z * spsso * endpoint) : stepctx :=
+  let rt := mk_routing (c6_md c) r in
+  let '(a, rand') := make_assertion (c6_cfg c) rt (c06_request c) (c6_sess c) (c6_now c) (c6_tnow c) (c6_addr c)
+                                    (rnd_saml (c6_rnd c)) in
+  {| sx_cfg := c6_cfg c; sx_cp := cp_of_list (c6_certs c); sx_rt := rt; sx_rq := c06_request c; sx_now := c6_now c;
+     sx_a := a; sx_rand := rand'; sx_rnd := c6_rnd c |}.
+Definition c08s_agree (c : c08scase) : bool :=
+  match c06_route (s8_base c) with
+  | None => true
+  | Some r =>
+      let '(st, os) := run_steps (c08s_ctx (s8_base c) r) (map step_of (s8_steps c)) st_empty in
+      list_eqb Z.eqb os (s8_results c) && Bool.eqb (is_some (st_ael st)) (s8_ael_set c)
+      && Bool.eqb (is_some (st_resp st)) (s8_resp_set c)
+  end.
+(* when the encryption decision is an error, every call is an error and the
+   request object holds neither an assertion element nor a response *)
+Definition c08s_spec (c : c08scase) : bool :=
+  forallb (fun z => negb (z =? 2)) (s8_results c)
+  && match c08_kds (s8_base c) with
+     | None => true
+     | Some l =>
+         match enc_decision_decl (cp_of_list (c6_certs (s8_base c))) l with
+         | EncErr => forallb (fun z => z =? 1) (s8_results c) && negb (s8_ael_set c) && negb (s8_resp_set c)
+         | _ => true
+         end
+     end.
+Definition check_c08s := check_cases c08s_agree c08s_spec.
